@@ -707,6 +707,173 @@ Definition trun (mode : nat) (l : list Z) (n : nat) (ops : list top) : tst :=
 Definition tee_count (n : Z) : nat + err := if (n <? 0)%Z then inr ValueError else inl (zn n).
 
 (* ------------------------------------------------------------------------------------------------ *)
+(* Aliasing: the same iterator OBJECT passed at several argument positions (e.g. the "grouper" recipe
+   zip_longest of n references to one iterator).  The underlying iterators live in a store indexed by nat
+   (remaining elements, and the kind of each: a synchronous iterator object - every position wraps it in its own
+   _IterableAsyncIterator but they share the underlying iterator - or an asynchronous iterator object, which
+   _iterate returns unchanged); an argument position is an index into the store.  Distinct sources are the special
+   case in which no index occurs twice. *)
+Definition istore := nat -> list Z.
+Definition ikinds := nat -> kind.
+
+(* what each position receives when the positions are drained completely, one after the other *)
+Fixpoint drain (st : istore) (ps : list nat) : list (list Z) :=
+  match ps with
+  | [] => []
+  | i :: r => st i :: drain (upd st i []) r
+  end.
+
+(* chain.from_iterable over aliased inner iterables *)
+Fixpoint chain_alias_go (ko : kind) (kd : ikinds) (st : istore) (ps : list nat) (yielded : bool) : list (event Z) :=
+  match ps with
+  | [] => pre ko ++ tail yielded
+  | i :: r => pre ko ++ iter_all (kd i) (st i) ++ chain_alias_go ko kd (upd st i []) r (yielded || nonempty (st i))
+  end.
+
+Definition chain_alias_model (ko : kind) (kd : ikinds) (st : istore) (ps : list nat) : trace Z :=
+  (chain_alias_go ko kd st ps false, None).
+
+(* product over aliased iterables *)
+Fixpoint collect_alias {B} (kd : ikinds) (st : istore) (ps : list nat) : list (event B) :=
+  match ps with
+  | [] => []
+  | i :: r => collect (kd i) (st i) ++ collect_alias kd (upd st i []) r
+  end.
+
+Definition product_alias_model (rep : Z) (kd : ikinds) (st : istore) (ps : list nat) : trace (list Z) :=
+  if (rep <? 0)%Z then ([], Some ValueError)
+  else (collect_alias kd st ps ++ emit_sync (product_oracle (drain st ps) (zn rep)), None).
+
+(* starmap whose argument iterables are aliased *)
+Fixpoint starmap_alias_go (f : list Z -> Z) (ko : kind) (kd : ikinds) (st : istore) (ps : list nat) (yielded : bool)
+  : list (event Z) :=
+  match ps with
+  | [] => pre ko ++ tail yielded
+  | i :: r => pre ko ++ collect (kd i) (st i) ++ Yield (f (st i)) :: starmap_alias_go f ko kd (upd st i []) r true
+  end.
+
+Definition starmap_alias_model (f : list Z -> Z) (ko : kind) (kd : ikinds) (st : istore) (ps : list nat) : trace Z :=
+  (starmap_alias_go f ko kd st ps false, None).
+
+(* compress(it, it): data and selectors are the same iterator *)
+Fixpoint compress_self_go (k : kind) (l : list Z) (y : bool) : list (event Z) :=
+  match l with
+  | [] => pre k ++ tail y
+  | [_] => pre k ++ pre k ++ tail y
+  | x :: b :: r => pre k ++ pre k ++ if zb b then Yield x :: compress_self_go k r true
+                                     else compress_self_go k r y
+  end.
+
+Definition compress_self_model (s : src) : trace Z := (compress_self_go (fst s) (snd s) false, None).
+
+(* zip_longest over aliased iterables *)
+Record zpos := mkP { p_idx : nat; p_active : bool }.
+
+Fixpoint zla_round (fill : Z) (kd : ikinds) (st : istore) (ps : list zpos) (num_active : nat) (yielded : bool)
+  : list (event (list Z)) * istore * option (list Z * list zpos * nat) :=
+  match ps with
+  | [] => ([], st, Some ([], [], num_active))
+  | p :: rest =>
+      if negb (p_active p) then
+        let '(ev, st', r) := zla_round fill kd st rest num_active yielded in
+        (ev, st', match r with
+                  | Some (vs, ps', na) => Some (fill :: vs, p :: ps', na)
+                  | None => None
+                  end)
+      else
+        match st (p_idx p) with
+        | x :: xs =>
+            let '(ev, st', r) := zla_round fill kd (upd st (p_idx p) xs) rest num_active yielded in
+            (pre (kd (p_idx p)) ++ ev, st',
+             match r with
+             | Some (vs, ps', na) => Some (x :: vs, p :: ps', na)
+             | None => None
+             end)
+        | [] =>
+            match pred num_active with
+            | 0 => (pre (kd (p_idx p)) ++ tail yielded, st, None)
+            | S _ as na1 =>
+                let '(ev, st', r) := zla_round fill kd st rest na1 yielded in
+                (pre (kd (p_idx p)) ++ ev, st',
+                 match r with
+                 | Some (vs, ps', na) => Some (fill :: vs, mkP (p_idx p) false :: ps', na)
+                 | None => None
+                 end)
+            end
+        end
+  end.
+
+Fixpoint zla_loop (fuel : nat) (fill : Z) (kd : ikinds) (st : istore) (ps : list zpos) (na : nat) (yielded : bool)
+  : option (list (event (list Z))) :=
+  match fuel with
+  | 0 => None
+  | S f => match zla_round fill kd st ps na yielded with
+           | (ev, _, None) => Some ev
+           | (ev, st', Some (vs, ps', na')) =>
+               match zla_loop f fill kd st' ps' na' true with
+               | Some t => Some (ev ++ Yield vs :: t)
+               | None => None
+               end
+           end
+  end.
+
+Definition alias_measure (st : istore) (ps : list nat) : nat := fold_right (fun i a => length (st i) + a) 0 ps.
+
+(* None = out of fuel (never: see zip_longest_alias_agrees) *)
+Definition zip_longest_alias_run (fill : Z) (kd : ikinds) (st : istore) (ps : list nat)
+  : option (list (event (list Z))) :=
+  match ps with
+  | [] => Some [Ck]
+  | _ => zla_loop (S (alias_measure st ps)) fill kd st (map (fun i => mkP i true) ps) (length ps) false
+  end.
+
+Definition zip_longest_alias_model (fill : Z) (kd : ikinds) (st : istore) (ps : list nat) : trace (list Z) :=
+  match zip_longest_alias_run fill kd st ps with Some t => (t, None) | None => ([], None) end.
+
+(* ---- specs: the standard-library semantics when positions share underlying iterators ---- *)
+Definition chain_alias_spec (st : istore) (ps : list nat) : list Z * option err := (concat (drain st ps), None).
+Definition product_alias_spec (rep : Z) (st : istore) (ps : list nat) : list (list Z) * option err :=
+  product_spec rep (drain st ps).
+Definition starmap_alias_spec (f : list Z -> Z) (st : istore) (ps : list nat) : list Z * option err :=
+  (map f (drain st ps), None).
+
+Fixpoint pair_up (l : list Z) : list (Z * Z) :=
+  match l with
+  | x :: b :: r => (x, b) :: pair_up r
+  | _ => []
+  end.
+Definition compress_self_spec (l : list Z) : list Z * option err :=
+  (map fst (filter (fun p => zb (snd p)) (pair_up l)), None).
+
+(* zip_longest: in every round each position that is not exhausted takes the next element of its (possibly
+   shared) iterator, in argument order; a position whose iterator has nothing left is exhausted from then on and
+   contributes the fill value; the round in which the last position becomes exhausted produces nothing *)
+Fixpoint zs_round (fill : Z) (st : istore) (ps : list zpos) : list Z * istore * list zpos :=
+  match ps with
+  | [] => ([], st, [])
+  | p :: rest =>
+      if p_active p then
+        match st (p_idx p) with
+        | x :: xs => let '(vs, st', ps') := zs_round fill (upd st (p_idx p) xs) rest in (x :: vs, st', p :: ps')
+        | [] => let '(vs, st', ps') := zs_round fill st rest in (fill :: vs, st', mkP (p_idx p) false :: ps')
+        end
+      else let '(vs, st', ps') := zs_round fill st rest in (fill :: vs, st', p :: ps')
+  end.
+
+Fixpoint zs_rows (fuel : nat) (fill : Z) (st : istore) (ps : list zpos) : option (list (list Z)) :=
+  match fuel with
+  | 0 => None
+  | S f => let '(vs, st', ps') := zs_round fill st ps in
+           if existsb p_active ps' then
+             match zs_rows f fill st' ps' with Some rows => Some (vs :: rows) | None => None end
+           else Some []
+  end.
+
+(* None = out of fuel (never: see zip_longest_alias_agrees) *)
+Definition zip_longest_alias_spec (fill : Z) (st : istore) (ps : list nat) : option (list (list Z)) :=
+  zs_rows (S (alias_measure st ps)) fill st (map (fun i => mkP i true) ps).
+
+(* ------------------------------------------------------------------------------------------------ *)
 (* Closed callback families (the same functions exist in harness/c19.py) *)
 Definition fn2 (c : Z) : Z -> Z -> Z :=
   match c with
@@ -772,6 +939,16 @@ Fixpoint rd_opts (n : nat) (l : list Z) : list (option Z) * list Z :=
   | S n' => let (o, r) := rd_opt l in let (os, r') := rd_opts n' r in (o :: os, r')
   end.
 
+(* store: [n; src_1 … src_n] -> kinds and remaining elements by index *)
+Definition rd_store (l : list Z) : ikinds * istore * list Z :=
+  match l with
+  | n :: r => let (ss, r') := rd_srcs (zn n) r in
+              (fun i => fst (nth i ss (KSync, [])), fun i => snd (nth i ss (KSync, [])), r')
+  | [] => (fun _ => KSync, fun _ => [], [])
+  end.
+
+Definition rd_nats (l : list Z) : list nat * list Z := let (xs, r) := rd_list l in (map zn xs, r).
+
 Definition enc_end (e : option err) : list Z :=
   match e with None => [5] | Some ValueError => [4; 1] | Some TypeError => [4; 2] end%Z.
 
@@ -823,6 +1000,15 @@ Definition run_model_case (c : list Z) : list Z :=
   | 21 :: fc :: r => let (i, r1) := rd_opt r in let (s, _) := rd_src r1 in
                      enc_trace eZ (reduce_model (fn2 fc) i s)
   | 22 :: n :: _ => match tee_count n with inr _ => [4; 1] | inl k => [5; nz k] end
+  | 23 :: r => let (f, r1) := rd_opt r in let '(kd, st, r2) := rd_store r1 in let (ps, _) := rd_nats r2 in
+               enc_trace eL (zip_longest_alias_model (dflt none_code f) kd st ps)
+  | 24 :: ko :: r => let '(kd, st, r2) := rd_store r in let (ps, _) := rd_nats r2 in
+                     enc_trace eZ (chain_alias_model (rd_kind ko) kd st ps)
+  | 25 :: r => let (s, _) := rd_src r in enc_trace eZ (compress_self_model s)
+  | 26 :: rep :: r => let '(kd, st, r2) := rd_store r in let (ps, _) := rd_nats r2 in
+                      enc_trace eL (product_alias_model rep kd st ps)
+  | 27 :: fc :: ko :: r => let '(kd, st, r2) := rd_store r in let (ps, _) := rd_nats r2 in
+                           enc_trace eZ (starmap_alias_model (fnN fc) (rd_kind ko) kd st ps)
   | _ => [9]
   end%Z.
 
@@ -853,6 +1039,18 @@ Definition run_spec_case (c : list Z) : list Z :=
                     enc_outcome eL (zip_longest_spec (dflt none_code f) (map snd ss))
   | 21 :: fc :: r => let (i, r1) := rd_opt r in let (s, _) := rd_src r1 in
                      enc_outcome eZ (reduce_spec (fn2 fc) i (snd s))
+  | 23 :: r => let (f, r1) := rd_opt r in let '(kd, st, r2) := rd_store r1 in let (ps, _) := rd_nats r2 in
+               match zip_longest_alias_spec (dflt none_code f) st ps with
+               | Some rows => enc_outcome eL (rows, None)
+               | None => [9]
+               end
+  | 24 :: ko :: r => let '(kd, st, r2) := rd_store r in let (ps, _) := rd_nats r2 in
+                     enc_outcome eZ (chain_alias_spec st ps)
+  | 25 :: r => let (s, _) := rd_src r in enc_outcome eZ (compress_self_spec (snd s))
+  | 26 :: rep :: r => let '(kd, st, r2) := rd_store r in let (ps, _) := rd_nats r2 in
+                      enc_outcome eL (product_alias_spec rep st ps)
+  | 27 :: fc :: ko :: r => let '(kd, st, r2) := rd_store r in let (ps, _) := rd_nats r2 in
+                           enc_outcome eZ (starmap_alias_spec (fnN fc) st ps)
   | _ => [9]
   end%Z.
 
